@@ -609,7 +609,8 @@ class Evaluator:
         raise AnalysisError(f"symex: unsupported construct {what or type(node).__name__} in {fr.func.qualname} at {fr.func.loc(node)}")
 
     def src(self, fr: Frame, node) -> tuple:
-        return (fr.func.qualname, getattr(node, "lineno", 0), fr.func.module.relpath)
+        return (fr.func.qualname, getattr(node, "lineno", 0), fr.func.module.relpath,
+                tuple(f.qualname for f in self.stack))
 
     def exec_block(self, stmts, fr: Frame):
         for st in stmts:
